@@ -17,6 +17,7 @@ verus! {
 //@include units/spec_lines.inc
 //@include units/spec_destruct.inc
 //@include units/spec_enum.inc
+//@include units/spec_enum_block.inc
 
 // =====================================================================================================
 // U9 — block assembly that is within reach: enum arms in order, default case; payload destructuring; vars(..)
@@ -30,62 +31,6 @@ verus! {
 //@assume U2 attr.rs DataTypeAttrs::ghosts_attr
 //@assume U6 expand.rs render_enum_line
 //@assume U6 expand.rs render_enum_ghost_line
-
-// a variant is left out of the match: ghost for this conversion when converting from the counterpart; ghost without a
-// default value when converting into it
-spec fn variant_skipped<'a>(v: &'a Variant, ctx: ImplContext<'a>) -> bool {
-    match spec_ghost(&v.attrs, ctx.struct_attr.ty, ctx.kind) {
-        Some(g) => k_is_from(ctx.kind) || g.action is None,
-        None => false,
-    }
-}
-
-// arms in declaration order, then the arms of enum-level #[ghosts]
-spec fn enum_arms<'a>(items: Seq<&'a VariantData<'a>>, ctx: ImplContext<'a>) -> Seq<Toks>
-    decreases items.len(),
-{
-    if items.len() == 0 {
-        Seq::<Toks>::empty()
-    } else {
-        (match *items[0] {
-            VariantData::Variant(v) => if variant_skipped(v, ctx) { Seq::<Toks>::empty() } else { seq![spec_variant_arm(v, ctx)] },
-            VariantData::GhostData(g) => seq![spec_enum_ghost_arm(g, ctx)],
-        }) + enum_arms(items.drop_first(), ctx)
-    }
-}
-
-spec fn enum_items_pre<'a>(items: Seq<&'a VariantData<'a>>, ctx: ImplContext<'a>) -> bool {
-    forall|i: int| 0 <= i < items.len() ==> (match *#[trigger] items[i] {
-        VariantData::Variant(v) => variant_skipped(v, ctx) || enum_line_pre(v, ctx),
-        VariantData::GhostData(g) => !(g.ghost_ident matches GhostIdent::Member(Member::Unnamed(_))),
-    })
-}
-
-spec fn q_has_lit_or_pat<'a>(ty: TypePath) -> spec_fn(&'a Variant) -> bool {
-    |v: &Variant| spec_lit(&v.attrs, ty) is Some || spec_pat(&v.attrs, ty) is Some
-}
-spec fn q_is_ghost<'a>(ty: TypePath, k: Kind) -> spec_fn(&'a Variant) -> bool {
-    |v: &Variant| spec_ghost(&v.attrs, ty, k) is Some
-}
-
-// the `_ => default` arm is emitted when some source value may be covered by no arm:
-//   converting from the counterpart: a variant corresponds to a literal / pattern, or counterpart-only variants are declared;
-//   converting into it: a variant of this enum is ghost
-spec fn default_case_needed<'a>(input: &Enum<'a>, ctx: ImplContext<'a>) -> bool {
-    let ty = ctx.struct_attr.ty;
-    if k_is_from(ctx.kind) {
-        first(refs(input.variants@), q_has_lit_or_pat(ty)) is Some || spec_ghosts_attr(&input.attrs, ty, ctx.kind) is Some
-    } else {
-        first(refs(input.variants@), q_is_ghost(ty, ctx.kind)) is Some
-    }
-}
-
-spec fn default_arm<'a>(input: &Enum<'a>, ctx: ImplContext<'a>) -> Seq<Toks> {
-    match ctx.struct_attr.default_case {
-        Some(d) => if default_case_needed(input, ctx) { seq![p("_") + spec_action(d@, nil(), ctx)] } else { Seq::<Toks>::empty() },
-        None => Seq::<Toks>::empty(),
-    }
-}
 
 //@fn expand.rs enum_init_block_inner
 //@props C02,C09,C16
@@ -110,19 +55,6 @@ spec fn default_arm<'a>(input: &Enum<'a>, ctx: ImplContext<'a>) -> Seq<Toks> {
     |v: &Variant| -> (r: bool) ensures r == q_is_ghost(ctx.struct_attr.ty, ctx.kind)(v)
 //@end
 
-
-// ---------------------------------------------------------------- enum_init_block: variants in declaration order, then the
-// counterpart-only variants of the #[ghosts] that applies to this counterpart and kind (C02 C06)
-spec fn mk_variant<'a>() -> spec_fn(&'a Variant) -> VariantData<'a> { |v: &'a Variant| VariantData::Variant(v) }
-spec fn mk_ghost<'a>() -> spec_fn(&'a GhostData) -> VariantData<'a> { |d: &'a GhostData| VariantData::GhostData(d) }
-
-spec fn enum_fields<'a>(input: &'a Enum<'a>, ctx: ImplContext<'a>) -> Seq<VariantData<'a>> {
-    refs(input.variants@).map_values(mk_variant())
-    + (match spec_ghosts_attr(&input.attrs, ctx.struct_attr.ty, ctx.kind) {
-        Some(g) => refs(g.ghost_data.pseq()).map_values(mk_ghost()),
-        None => Seq::<VariantData>::empty(),
-    })
-}
 
 //@fn expand.rs enum_init_block
 //@props C02,C06,C09,C16
